@@ -1,8 +1,11 @@
 /- Driver for C10: the executor model shared with C02 (`Exec/Driver.lean`) for program cases, and the
-   fine-grained simple-command model (`Errexit/ScDriver.lean`) for cases that start with `sc`. -/
+   fine-grained simple-command model (`Errexit/ScDriver.lean`) for cases that start with `sc`, the nested-context model
+   (`Errexit/NcDriver.lean`) for cases that start with `nc`. -/
 import YashModel.Common.Proto
 import YashModel.Exec.Driver
 import YashModel.Errexit.ScDriver
+import YashModel.Errexit.NcDriver
 def runLineC10 (line : String) : String :=
-  if line.startsWith "sc " then YashModel.Errexit.runSc line else YashModel.Exec.runLine line
+  if line.startsWith "sc " then YashModel.Errexit.runSc line
+  else if line.startsWith "nc " then YashModel.Errexit.runNc line else YashModel.Exec.runLine line
 def main : IO Unit := YashModel.Proto.mainLoop runLineC10
